@@ -8,10 +8,12 @@ import sys
 
 import vlib
 from pure_common import SPECS as SPEC_CLASSES
+from scale_common import Extras19Spec
 
 PROP_FILES = ["C19"]
 # tag -> (spec, harness module, runner executable)
 SPECS = dict((cls.package, (cls(), "harness_pure", "runner-pure")) for cls in SPEC_CLASSES)
+SPECS["extras"] = (Extras19Spec(), "harness", "runner")
 
 
 def config_switches():
@@ -46,8 +48,12 @@ def run(ctx):
     ctx.coverage["statements"] = {"count": len(stmts), "names": stmts,
                                   "note": "each obligation (Theorem) of Properties/C19.v is the conjunction of the statements (Lemma) of one section; "
                                           "Print Assumptions on the conjunction covers each of them"}
-    for tag, (spec, _, _) in SPECS.items():
-        vlib.seq_differential(ctx, spec, exe, proofs_ok, tag=tag)
+    for tag, (spec, mod_, _) in list(SPECS.items()):
+        if mod_ == "harness_pure":
+            vlib.seq_differential(ctx, spec, exe, proofs_ok, tag=tag)
+    okX, outX, exeX = vlib.build_runner()
+    if okX:
+        vlib.seq_differential(ctx, SPECS["extras"][0], exeX, proofs_ok, tag="extras")
     vlib.merge_parts(ctx, "cases = batches of independent calls of one exported function; small domain: all slices up to length 5-6 over the "
                      "alphabet {1,2,3} (0 = cleared), all predicates / all 512 binary relations / all 13 strict weak orders on the alphabet, all index and "
                      "count arguments in [-1, len+1], extreme integers, all error chains of depth <= 4, all (n,k) in [0,7]x[0,8] with seeded sources; "
